@@ -142,24 +142,26 @@ def orderDesc (l : List (ERow D)) : List (ERow D) :=
   -- ties by id descending
   (sortBy (fun r => r.st) (sortBy (fun r => r.id) l)).reverse
 
-/-- `get_events` (window already rounded by `Bucket.get`): `endtime >= ? AND starttime <= ?` -/
+/-- `get_events` (window already rounded by `Bucket.get`): `endtime >= ? AND starttime <= ?`
+    (repaired, F22: no lower bound without a start instant — the parameter is then -2^63, below
+    every representable instant; it used to be `endtime >= 0`, which hid events ending before 1970) -/
 def getEvents (s : St D) (b : String) (limit : Int) (st en : Option Int) : List (Ev D) :=
   if limit = 0 then [] else
   match rowOf s b with
   | none => []
   | some r =>
     let rows := (rowsOf s r).filter (fun row =>
-      (match st with | some a => decide (row.en ≥ a) | none => decide (row.en ≥ 0)) &&
+      (match st with | some a => decide (row.en ≥ a) | none => true) &&
       (match en with | some z => decide (row.st ≤ z) | none => true))
     applyLimit (if limit < 0 then -1 else limit) ((orderDesc rows).map toEv)
 
-/-- `get_eventcount` -/
+/-- `get_eventcount` (repaired, F22: no lower bound without a start instant, as in `get_events`) -/
 def getEventcount (s : St D) (b : String) (st en : Option Int) : Nat :=
   match rowOf s b with
   | none => 0
   | some r =>
     ((rowsOf s r).filter (fun row =>
-      (match st with | some a => decide (row.en ≥ a) | none => decide (row.en ≥ 0)) &&
+      (match st with | some a => decide (row.en ≥ a) | none => true) &&
       (match en with | some z => decide (row.st ≤ z) | none => true))).length
 
 /-- what a client can observe of bucket `b`: metadata and events in table order -/
